@@ -25,9 +25,14 @@
 (*                                                                         *)
 (* Values: <<"int",n>> <<"str",s>> <<"bool",b>> <<"nil">> <<"sym",x>>      *)
 (*   <<"list",<<v..>>>> (the empty list is nil) <<"arr",<<v..>>>>          *)
-(*   <<"clo",id>> <<"bi",name>> <<"lazy",id>> <<"hash",ref>>               *)
+(*   <<"clo",id>> <<"bi",name>> <<"lazy",id>>                              *)
+(*   <<"aref",id>> an array made by the running program: a mutable heap    *)
+(*   object (aset), shared by every holder of the reference; <<"arr",..>>  *)
+(*   remains the immutable array of quoted data                            *)
+(*   <<"href",id>> a hash: a heap object holding <<key,value>> pairs in    *)
+(*   first-insertion order (hset, hdel, hget, keys, hpair, len)            *)
 (*                                                                         *)
-(* State: [fr, clo, thk, obj, fx, fuel].  Frames are heap objects          *)
+(* State: [fr, clo, thk, obj, fx, fuel, calls, failAt].  Frames are heap objects          *)
 (* [vars, parent] so that closures share and outlive activations.          *)
 (* A result is [k, v, s] with k in                                         *)
 (*   "val" | "err" | "brk" | "cnt" (v = label) | "oof" (fuel exhausted) |  *)
@@ -40,6 +45,32 @@ Nil == <<"nil">>
 I(n) == <<"int", n>>
 B(b) == <<"bool", b>>
 MkList(s) == IF Len(s) = 0 THEN Nil ELSE <<"list", s>>
+
+(* ---------------- heap objects: arrays and hashes ---------------- *)
+IsArr(v) == v[1] \in {"arr", "aref"}
+IsSeqV(v) == v[1] \in {"list", "arr", "aref"}
+Elems(v, s) == IF v[1] = "aref" THEN s.obj[v[2]].e ELSE v[2]     \* elements of a list or array
+(* fz: the object shares storage with another one (rest of an array): the outcome of a later *)
+(* mutation of either is left undefined                                                     *)
+AllocObj(kind, tag, e, s) ==
+    [k |-> "val", v |-> <<tag, Len(s.obj) + 1>>,
+     s |-> [s EXCEPT !.obj = Append(s.obj, [k |-> kind, e |-> e, fz |-> FALSE])]]
+AllocArr(e, s) == AllocObj("arr", "aref", e, s)
+AllocHash(pairs, s) == AllocObj("hash", "href", pairs, s)
+
+(* what an observer sees of a value at one moment: heap objects by their present contents, *)
+(* functions opaque (the projection the harness applies to real values)                    *)
+RECURSIVE Snap(_, _, _)
+Snap(v, s, d) ==
+    IF d = 0 THEN <<"deep">>
+    ELSE CASE v[1] \in {"clo", "bi"} -> <<"fn">>
+           [] v[1] = "lazy" -> <<"lazy">>
+           [] v[1] \in {"list", "arr"} -> <<v[1], [i \in 1..Len(v[2]) |-> Snap(v[2][i], s, d - 1)]>>
+           [] v[1] = "aref" -> LET e == s.obj[v[2]].e IN <<"arr", [i \in 1..Len(e) |-> Snap(e[i], s, d - 1)]>>
+           [] v[1] = "href" -> LET e == s.obj[v[2]].e IN
+                               <<"hash", "hash", [i \in 1..Len(e) |-> <<Snap(e[i][1], s, d - 1), Snap(e[i][2], s, d - 1)>>]>>
+           [] OTHER -> v
+SnapAll(a, s) == [j \in 1..Len(a) |-> Snap(a[j], s, 12)]
 
 (* IsTruthy: false, nil, integer zero and character zero are falsy;       *)
 (* 0.0, "" and [] are truthy                                               *)
@@ -71,7 +102,8 @@ Bind(s, f, x, v) ==
 
 (* the type BindSymbol compares when a name is re-bound in the same scope *)
 TypeOf(v) == CASE v[1] \in {"int", "str", "bool", "sym", "hash", "flt", "chr"} -> v[1]
-               [] v[1] = "arr" -> "arr"
+               [] v[1] \in {"arr", "aref"} -> "arr"
+               [] v[1] = "href" -> "hash"
                [] OTHER -> "none"       \* nil, lists, functions: untyped
 
 (* def: bind in the innermost frame; a re-binding must keep the type *)
@@ -87,7 +119,7 @@ DefIn(s, f, x, v) ==
 Builtins == {"+", "-", "*", "/", "mod", "==", "!=", "<", ">", "<=", ">=", "not",
              "list", "cons", "first", "rest", "len", "append", "concat", "aget", "array",
              "trace", "tr", "map", "apply", "fail", "force", "substitute", "str", "hash", "hget", "hset", "keys",
-             "null?", "empty?", "second"}
+             "null?", "empty?", "second", "aset", "hdel", "hpair"}
 
 (* ---------------- builtins over data ---------------- *)
 AllInts(a) == \A i \in 1..Len(a) : a[i][1] = "int"
@@ -99,14 +131,34 @@ FoldArith(op, acc, rest) ==
                   ELSE IF op = "-" THEN acc - rest[1][2] ELSE acc * rest[1][2]
          IN IF n > MaxInt \/ n < -MaxInt THEN MaxInt + 1 ELSE FoldArith(op, n, Tail(rest))
 
-RECURSIVE ValEq(_, _)
-ValEq(a, b) ==      \* structural equality on data of the same kind
-    IF a[1] # b[1] THEN FALSE
-    ELSE IF a[1] \in {"list", "arr"}
-         THEN Len(a[2]) = Len(b[2]) /\ \A i \in 1..Len(a[2]) : ValEq(a[2][i], b[2][i])
+RECURSIVE ValEqS(_, _, _)
+ValEqS(a, b, s) ==      \* structural equality on data of the same kind
+    IF IsArr(a) /\ IsArr(b)
+    THEN LET x == Elems(a, s) y == Elems(b, s) IN
+         Len(x) = Len(y) /\ \A i \in 1..Len(x) : ValEqS(x[i], y[i], s)
+    ELSE IF a[1] # b[1] THEN FALSE
+    ELSE IF a[1] = "list"
+         THEN Len(a[2]) = Len(b[2]) /\ \A i \in 1..Len(a[2]) : ValEqS(a[2][i], b[2][i], s)
          ELSE a = b
+KindOf(v) == IF IsArr(v) THEN "arr" ELSE v[1]
 
-SeqOf(v) == IF v = Nil THEN <<>> ELSE v[2]   \* elements of a list or array
+SeqOf(v, s) == IF v = Nil THEN <<>> ELSE Elems(v, s)   \* elements of a list or array
+
+(* hashes: keys are symbols, strings and integers (other key kinds are not modelled) *)
+KeyOk(k) == k[1] \in {"sym", "str", "int"}
+HIdx(pairs, k) == IF \E i \in 1..Len(pairs) : pairs[i][1] = k
+                  THEN CHOOSE i \in 1..Len(pairs) : pairs[i][1] = k ELSE 0
+HPut(pairs, k, v) == LET i == HIdx(pairs, k) IN
+                     IF i # 0 THEN [pairs EXCEPT ![i] = <<k, v>>] ELSE Append(pairs, <<k, v>>)
+HDrop(pairs, k) == LET i == HIdx(pairs, k) IN
+                   IF i = 0 THEN pairs ELSE SubSeq(pairs, 1, i - 1) \o SubSeq(pairs, i + 1, Len(pairs))
+RECURSIVE HBuild(_, _, _)
+HBuild(a, i, pairs) == IF i > Len(a) THEN pairs ELSE HBuild(a, i + 2, HPut(pairs, a[i], a[i + 1]))
+
+RECURSIVE ConcatAll(_, _, _, _)
+ConcatAll(a, i, acc, s) == IF i > Len(a) THEN acc ELSE ConcatAll(a, i + 1, acc \o Elems(a[i], s), s)
+RECURSIVE ConcatStrs(_, _, _)
+ConcatStrs(a, i, acc) == IF i > Len(a) THEN acc ELSE ConcatStrs(a, i + 1, acc \o a[i][2])
 
 Pure(name, a, s) ==
   LET n == Len(a) IN
@@ -137,13 +189,13 @@ Pure(name, a, s) ==
                   r == CASE name = "==" -> x = y [] name = "!=" -> x # y [] name = "<" -> x < y
                          [] name = ">" -> x > y [] name = "<=" -> x <= y [] name = ">=" -> x >= y
               IN Val(B(r), s)
-         ELSE IF name \in {"==", "!="} /\ a[1][1] = a[2][1] /\ a[1][1] \in {"str", "bool", "sym", "nil", "list", "arr"}
-              THEN Val(B(IF name = "==" THEN ValEq(a[1], a[2]) ELSE ~ValEq(a[1], a[2])), s)
+         ELSE IF name \in {"==", "!="} /\ KindOf(a[1]) = KindOf(a[2]) /\ KindOf(a[1]) \in {"str", "bool", "sym", "nil", "list", "arr"}
+              THEN Val(B(IF name = "==" THEN ValEqS(a[1], a[2], s) ELSE ~ValEqS(a[1], a[2], s)), s)
          ELSE Res("undef", "compare-kinds", s)
     [] name = "not" ->
          IF n # 1 THEN ErrR("arity", s) ELSE Val(B(~Truthy(a[1])), s)
     [] name = "list" -> Val(MkList(a), s)
-    [] name = "array" -> Val(<<"arr", a>>, s)
+    [] name = "array" -> AllocArr(a, s)
     [] name = "cons" ->
          IF n # 2 THEN ErrR("arity", s)
          ELSE IF a[2] = Nil THEN Val(<<"list", <<a[1]>>>>, s)
@@ -151,52 +203,97 @@ Pure(name, a, s) ==
          ELSE Res("undef", "dotted-pair", s)
     [] name = "first" ->
          IF n # 1 THEN ErrR("arity", s)
-         ELSE IF a[1][1] \in {"list", "arr"} /\ Len(a[1][2]) > 0 THEN Val(a[1][2][1], s)
-         ELSE IF a[1][1] \in {"arr"} \/ a[1] = Nil THEN ErrR("empty", s)
+         ELSE IF IsSeqV(a[1]) /\ Len(Elems(a[1], s)) > 0 THEN Val(Elems(a[1], s)[1], s)
+         ELSE IF IsArr(a[1]) \/ a[1] = Nil THEN ErrR("empty", s)
          ELSE ErrR("type", s)
     [] name = "second" ->
          IF n # 1 THEN ErrR("arity", s)
-         ELSE IF a[1][1] \in {"list", "arr"} /\ Len(a[1][2]) > 1 THEN Val(a[1][2][2], s)
-         ELSE IF a[1][1] \in {"list", "arr"} \/ a[1] = Nil THEN ErrR("empty", s)
+         ELSE IF IsSeqV(a[1]) /\ Len(Elems(a[1], s)) > 1 THEN Val(Elems(a[1], s)[2], s)
+         ELSE IF IsSeqV(a[1]) \/ a[1] = Nil THEN ErrR("empty", s)
          ELSE ErrR("type", s)
     [] name = "rest" ->
          IF n # 1 THEN ErrR("arity", s)
          ELSE IF a[1] = Nil THEN Val(Nil, s)
          ELSE IF a[1][1] = "list" THEN Val(MkList(Tail(a[1][2])), s)
-         ELSE IF a[1][1] = "arr" THEN (IF Len(a[1][2]) = 0 THEN Val(<<"arr", <<>>>>, s) ELSE Val(<<"arr", Tail(a[1][2])>>, s))
+         ELSE IF IsArr(a[1]) THEN
+              (* the rest of an array shares the array's storage: both are frozen *)
+              LET e == Elems(a[1], s)
+                  r == AllocArr(IF Len(e) = 0 THEN <<>> ELSE Tail(e), s)
+                  s2 == [r.s EXCEPT !.obj[r.v[2]].fz = TRUE]
+              IN Val(r.v, IF a[1][1] = "aref" THEN [s2 EXCEPT !.obj[a[1][2]].fz = TRUE] ELSE s2)
          ELSE ErrR("type", s)
     [] name = "len" ->
          IF n # 1 THEN ErrR("arity", s)
          ELSE IF a[1] = Nil THEN Val(I(0), s)
-         ELSE IF a[1][1] \in {"list", "arr"} THEN Val(I(Len(a[1][2])), s)
-         ELSE IF a[1][1] = "str" THEN Res("undef", "strlen", s)
+         ELSE IF IsSeqV(a[1]) THEN Val(I(Len(Elems(a[1], s))), s)
+         ELSE IF a[1][1] = "href" THEN Val(I(Len(s.obj[a[1][2]].e)), s)
+         ELSE IF a[1][1] = "str" THEN Val(I(Len(a[1][2])), s)      \* generated strings are ASCII
          ELSE ErrR("type", s)
-    [] name = "append" ->
-         IF n # 2 THEN Res("undef", "append-arity", s)
-         ELSE IF a[1][1] = "arr" THEN Val(<<"arr", Append(a[1][2], a[2])>>, s)
+    [] name = "append" ->            \* a new array: the argument is left as it was
+         IF n # 2 THEN ErrR("arity", s)
+         ELSE IF IsArr(a[1]) THEN AllocArr(Append(Elems(a[1], s), a[2]), s)
          ELSE IF a[1][1] = "str" THEN Res("undef", "append-str", s)
          ELSE ErrR("type", s)
-    [] name = "concat" ->
-         IF n = 2 /\ a[1][1] = "arr" /\ a[2][1] = "arr" THEN Val(<<"arr", a[1][2] \o a[2][2]>>, s)
-         ELSE IF n = 2 /\ a[1][1] = "str" /\ a[2][1] = "str" THEN Val(<<"str", a[1][2] \o a[2][2]>>, s)
+    [] name = "concat" ->            \* a new array / string / list
+         IF n >= 1 /\ \A i \in 1..n : IsArr(a[i]) THEN AllocArr(ConcatAll(a, 1, <<>>, s), s)
+         ELSE IF n >= 1 /\ \A i \in 1..n : a[i][1] = "str" THEN Val(<<"str", ConcatStrs(a, 1, "")>>, s)
          ELSE IF n = 2 /\ a[1][1] = "list" /\ a[2][1] = "list" THEN Val(<<"list", a[1][2] \o a[2][2]>>, s)
+         ELSE IF n >= 1 /\ (IsArr(a[1]) \/ a[1][1] = "str") THEN ErrR("type", s)
          ELSE Res("undef", "concat", s)
-    [] name = "aget" ->
-         IF n # 2 THEN Res("undef", "aget-arity", s)
-         ELSE IF a[1][1] # "arr" THEN ErrR("type", s)
-         ELSE IF a[2][1] # "int" THEN ErrR("type", s)
-         ELSE IF a[2][2] >= 0 /\ a[2][2] < Len(a[1][2]) THEN Val(a[1][2][a[2][2] + 1], s)
+    [] name \in {"aget", "hget"} /\ (n < 1 \/ ~(a[1][1] = "href")) ->
+         IF n < 2 \/ n > 3 THEN (IF n = 1 /\ name = "hget" /\ IsArr(a[1]) THEN ErrR("arity", s) ELSE Res("undef", "aget-arity", s))
+         ELSE IF ~IsArr(a[1]) THEN ErrR("type", s)
+         ELSE IF a[2][1] # "int" THEN (IF a[2][1] \in {"str", "bool", "nil", "flt"} THEN ErrR("type", s) ELSE Res("undef", "aget-index-kind", s))
+         ELSE IF a[2][2] >= 0 /\ a[2][2] < Len(Elems(a[1], s)) THEN Val(Elems(a[1], s)[a[2][2] + 1], s)
+         ELSE IF n = 3 THEN Val(a[3], s)
          ELSE ErrR("index", s)
+    [] name = "aset" ->              \* in place: every holder of the array sees the change
+         IF n # 3 THEN (IF n = 2 /\ IsArr(a[1]) THEN ErrR("arity", s) ELSE Res("undef", "aset-arity", s))
+         ELSE IF ~IsArr(a[1]) THEN ErrR("type", s)
+         ELSE IF a[2][1] # "int" THEN Res("undef", "aset-index-kind", s)
+         ELSE IF a[2][2] < 0 \/ a[2][2] >= Len(Elems(a[1], s)) THEN ErrR("index", s)
+         ELSE IF a[1][1] # "aref" THEN Res("undef", "aset-on-constant", s)
+         ELSE IF s.obj[a[1][2]].fz THEN Res("undef", "aset-on-shared-storage", s)
+         ELSE Val(Nil, [s EXCEPT !.obj[a[1][2]].e[a[2][2] + 1] = a[3]])
+    [] name = "hash" ->
+         IF n % 2 # 0 THEN ErrR("arity", s)
+         ELSE IF \E i \in 1..n : i % 2 = 1 /\ ~KeyOk(a[i]) THEN Res("undef", "hash-key-kind", s)
+         ELSE AllocHash(HBuild(a, 1, <<>>), s)
+    [] name = "hget" /\ n >= 1 /\ a[1][1] = "href" ->              \* first argument is a hash (arrays are handled with aget above)
+         IF n < 2 \/ n > 3 THEN Res("undef", "hget-arity", s)
+         ELSE IF ~KeyOk(a[2]) THEN Res("undef", "hash-key-kind", s)
+         ELSE LET pairs == s.obj[a[1][2]].e i == HIdx(pairs, a[2]) IN
+              IF i # 0 THEN Val(pairs[i][2], s)
+              ELSE IF n = 3 THEN Val(a[3], s) ELSE ErrR("nokey", s)
+    [] name = "hset" ->
+         IF n # 3 THEN (IF n \in {1, 2} THEN ErrR("arity", s) ELSE Res("undef", "hset-arity", s))
+         ELSE IF a[1][1] # "href" THEN ErrR("type", s)
+         ELSE IF ~KeyOk(a[2]) THEN Res("undef", "hash-key-kind", s)
+         ELSE Val(Nil, [s EXCEPT !.obj[a[1][2]].e = HPut(@, a[2], a[3])])
+    [] name = "hdel" ->
+         IF n # 2 THEN (IF n \in {1, 3} THEN ErrR("arity", s) ELSE Res("undef", "hdel-arity", s))
+         ELSE IF a[1][1] # "href" THEN ErrR("type", s)
+         ELSE IF ~KeyOk(a[2]) THEN Res("undef", "hash-key-kind", s)
+         ELSE Val(Nil, [s EXCEPT !.obj[a[1][2]].e = HDrop(@, a[2])])
+    [] name = "keys" ->
+         IF n # 1 THEN (IF n \in {2, 3} THEN ErrR("arity", s) ELSE Res("undef", "keys-arity", s))
+         ELSE IF a[1][1] # "href" THEN ErrR("type", s)
+         ELSE LET pairs == s.obj[a[1][2]].e IN AllocArr([i \in 1..Len(pairs) |-> pairs[i][1]], s)
+    [] name = "hpair" ->
+         IF n # 2 \/ a[1][1] # "href" \/ a[2][1] # "int" THEN Res("undef", "hpair", s)
+         ELSE LET pairs == s.obj[a[1][2]].e IN
+              IF a[2][2] < 0 \/ a[2][2] >= Len(pairs) THEN ErrR("index", s)
+              ELSE Val(<<"list", pairs[a[2][2] + 1]>>, s)
     [] name = "null?" -> IF n # 1 THEN ErrR("arity", s) ELSE Val(B(a[1] = Nil), s)
     [] name = "empty?" ->
          IF n # 1 THEN ErrR("arity", s)
          ELSE IF a[1] = Nil THEN Val(B(TRUE), s)
-         ELSE IF a[1][1] \in {"list", "arr"} THEN Val(B(Len(a[1][2]) = 0), s)
+         ELSE IF IsSeqV(a[1]) THEN Val(B(Len(Elems(a[1], s)) = 0), s)
          ELSE Res("undef", "empty?", s)
     [] name = "tr" ->        \* host function (tr k v): records <<k, v>> and returns v
-         IF n # 2 THEN ErrR("arity", s) ELSE Val(a[2], [s EXCEPT !.fx = Append(s.fx, a)])
+         IF n # 2 THEN ErrR("arity", s) ELSE Val(a[2], [s EXCEPT !.fx = Append(s.fx, SnapAll(a, s))])
     [] name = "trace" ->     \* host function: the observable side effect
-         Val(Nil, [s EXCEPT !.fx = Append(s.fx, a)])
+         Val(Nil, [s EXCEPT !.fx = Append(s.fx, SnapAll(a, s))])
     [] name = "fail" ->      \* host function that fails at its k-th call (C05)
          LET c == s.calls + 1 IN
          IF c = s.failAt THEN ErrR("user", [s EXCEPT !.calls = c])
@@ -258,14 +355,14 @@ Call(fv, a, s) ==
         CASE fv[2] = "map" ->
                IF Len(a) # 2 THEN Res("undef", "map-arity", s)
                ELSE IF a[2] = Nil THEN Res("undef", "map-over-nil", s)   \* the interpreter refuses nil although nil is the empty list
-               ELSE IF a[2][1] \notin {"list", "arr"} THEN ErrR("type", s)
+               ELSE IF ~IsSeqV(a[2]) THEN ErrR("type", s)
                ELSE IF a[1][1] \notin {"clo", "bi"} THEN ErrR("type", s)
-               ELSE MapOver(a[1], a[2], 1, <<>>, s)
+               ELSE MapOver(a[1], <<a[2][1], Elems(a[2], s)>>, 1, <<>>, s)
           [] fv[2] = "apply" ->
                IF Len(a) # 2 THEN Res("undef", "apply-arity", s)
-               ELSE IF a[2] # Nil /\ a[2][1] \notin {"list", "arr"} THEN ErrR("type", s)
+               ELSE IF a[2] # Nil /\ ~IsSeqV(a[2]) THEN ErrR("type", s)
                ELSE IF a[1][1] \notin {"clo", "bi"} THEN ErrR("type", s)
-               ELSE Call(a[1], SeqOf(a[2]), s)
+               ELSE Call(a[1], SeqOf(a[2], s), s)
           [] fv[2] = "force" ->
                IF Len(a) # 1 THEN Res("undef", "force-arity", s) ELSE Force(a[1], s)
           [] fv[2] = "substitute" ->      \* the source expression of a lazy argument, unevaluated
@@ -290,7 +387,7 @@ Call(fv, a, s) ==
     ELSE ErrR("notfn", s)
 
 MapOver(fv, coll, i, acc, s) ==
-    IF i > Len(coll[2]) THEN Val(<<coll[1], acc>>, s)
+    IF i > Len(coll[2]) THEN (IF coll[1] = "list" THEN Val(MkList(acc), s) ELSE AllocArr(acc, s))
     ELSE LET r == Call(fv, <<coll[2][i]>>, s) IN
          IF ~IsVal(r) THEN r ELSE MapOver(fv, coll, i + 1, Append(acc, r.v), r.s)
 
@@ -351,7 +448,7 @@ Ev(e, f, s0) ==
     [] e[1] = "quote" -> Val(e[2], s)
     [] e[1] = "arr" ->
          LET r == EvArgs(e[2], 1, <<>>, <<>>, f, s) IN
-         IF ~IsVal(r) THEN r ELSE Val(<<"arr", r.v>>, r.s)
+         IF ~IsVal(r) THEN r ELSE AllocArr(r.v, r.s)
     [] e[1] = "def" ->
          LET r == Ev(e[3], f, s) IN IF ~IsVal(r) THEN r ELSE DefIn(r.s, f, e[2], r.v)
     [] e[1] = "set" ->
@@ -428,12 +525,12 @@ EvT(t, f, s) ==
       [] t[1] = "unq" -> LET r == Ev(t[2], f, s) IN
                          IF r.k \in {"brk", "cnt"} THEN Res("undef", "jump-out-of-template", r.s) ELSE r
       [] t[1] = "list" -> LET r == EvTSeq(t[2], 1, <<>>, f, s) IN IF ~IsVal(r) THEN r ELSE Val(MkList(r.v), r.s)
-      [] t[1] = "arr" -> LET r == EvTSeq(t[2], 1, <<>>, f, s) IN IF ~IsVal(r) THEN r ELSE Val(<<"arr", r.v>>, r.s)
+      [] t[1] = "arr" -> LET r == EvTSeq(t[2], 1, <<>>, f, s) IN IF ~IsVal(r) THEN r ELSE AllocArr(r.v, r.s)
       [] OTHER -> Res("undef", "template", s)
 
 (* ---------------- running a program ---------------- *)
 InitState(fuel, failAt) ==
-    [fr |-> << [vars |-> <<>>, parent |-> 0] >>, clo |-> <<>>, thk |-> <<>>, fx |-> <<>>,
+    [fr |-> << [vars |-> <<>>, parent |-> 0] >>, clo |-> <<>>, thk |-> <<>>, obj |-> <<>>, fx |-> <<>>,
      fuel |-> fuel, calls |-> 0, failAt |-> failAt]
 
 (* break/continue outside a loop (or naming a label no enclosing loop has) is refused when the text *)
@@ -469,4 +566,6 @@ Obs(v) == CASE v[1] \in {"clo", "bi"} -> <<"fn">>
             [] v[1] \in {"list", "arr"} -> <<v[1], [i \in 1..Len(v[2]) |-> Obs(v[2][i])]>>
             [] OTHER -> v
 ObsFx(fx) == [i \in 1..Len(fx) |-> [j \in 1..Len(fx[i]) |-> Obs(fx[i][j])]]
+(* the value of a result as the caller sees it when the evaluation returns *)
+ObsR(r) == Snap(r.v, r.s, 12)
 =============================================================================
